@@ -93,7 +93,7 @@ JudgeB(c) ==
       vS == IF tryS THEN BeeperVerdict(c, AS, obs) ELSE "n/a"
       vF == IF tryF THEN BeeperVerdict(c, AF, obs) ELSE "n/a"
       \* one deviation may bring the other into play (a delay that is too long crosses a frame boundary it should not reach)
-      vSF == IF (tryS /\ (tryF \/ AS.fcross)) \/ (tryF /\ AF.span) THEN BeeperVerdict(c, Adjust(c.cfg, c.opt, ImplVariant, c.delays), obs) ELSE "n/a"
+      vSF == IF (tryS /\ (tryF \/ AS.fcross)) \/ (tryF /\ AF.span) THEN BeeperVerdict(c, Adjust(c.cfg, c.opt, OldImplVariant, c.delays), obs) ELSE "n/a"
       clause == IF v0 = "ok" THEN "ok"
                 ELSE IF vS = "ok" THEN "adjust:ImplSpanBook"
                 ELSE IF vF = "ok" THEN "adjust:ImplFirstDelayExempt"
